@@ -270,7 +270,7 @@ def border_search(out, grids, rng, thorough, optsets_fn):
         for o in opts:
             pole_fluxes(out, name, grid, o)
             renumbering(out, name, V, E, dom, o, rng)
-    for name, grid, dom in (grids if thorough else grids[:4]):
+    for name, grid, dom in (grids if thorough else []):
         if grid.number_of_elements <= 12:
             for o in optsets_fn(grid, dom, thorough)[:2]:
                 try:
